@@ -26,7 +26,7 @@ def f_r1_funnel(schema: Schema, rep: Report):
                 if nm in ci.attrs:
                     rep.check("F-R1", f"{ci.name}.{nm}", False, f"{ci.name} rebinds {nm}", loc(ci))
                 continue
-            ok, why = chains_to_super(fn, nm, star_args=False)
+            ok, why = chains_to_super(fn, nm, star_args=False, ci=ci)
             rep.check("F-R1", f"{ci.name}.{nm}", ok, f"{ci.name} overrides {nm} and {why}: instances can be built without the base checks", loc(ci, fn))
         fn = ci.own_func("_apply_args")
         if fn is not None:
